@@ -35,6 +35,10 @@ func (t *Transaction) GetNewIntents() map[string]*TransactionIntent {
 	return t.newIntents
 }
 
+func (t *Transaction) GetOldIntents() map[string]*TransactionIntent {
+	return t.oldIntents
+}
+
 func (t *Transaction) GetOldRunning() *TransactionIntent {
 	return t.oldRunning
 }
